@@ -14,7 +14,7 @@ from mc.ref import eval as ev
 
 PROPERTY = "C02"
 RULE = (
-    "all filter expressions built from <=2 units over 27 atoms x 4 unit forms "
+    "all filter expressions built from <=2 units over 31 atoms x 4 unit forms "
     "(x, !x, (x), !(x)) and <=3 units over a 16-unit subset (<=4 units over 8 units in "
     "thorough), joined by &&/|| with every parenthesisation/negation of sub-groups; "
     "each is parsed by the reference parser and run through find() in several "
@@ -27,10 +27,11 @@ ASSUMPTIONS = [
     "match/search atoms use trivially simple patterns (the I-Regexp semantics are C11's subject)",
 ]
 
-TESTS = ["@", "@.a", "@.b", "@[0]", "@.*", "@..a", "@[?@.a]", "$", "$.a", "$[0]", "$.x",
+TESTS = ["@", "@.a", "@.b", "@[0]", "@[-1]", "@[-2]", "@.*", "@..a", "@[?@.a]", "$", "$.a", "$[0]", "$.x",
          "@[?@ == 1]", "match(@.a, 'a')", "search(@, 'a')"]
 CMPS = ["@.a == 1", "@.a == $.a", "@ == null", "@ == false", "@ == 0", "@ == ''", "@.a < @.b",
-        "count(@.*) == 1", "length(@) == 1", "value(@.*) == 1", "1 == 1", "@[0] != @[1]", "@.a >= 1"]
+        "count(@.*) == 1", "length(@) == 1", "value(@.*) == 1", "1 == 1", "@[0] != @[1]", "@.a >= 1",
+        "@[-1] == 1", "@[-2] == @[0]"]
 SMALL_T = ["@", "@.a", "@[0]", "$.a", "@.*"]
 SMALL_C = ["@.a == 1", "@ == 0", "1 == 2"]
 
